@@ -1782,3 +1782,127 @@ def index_dict_ok(ex, d, R, C):
     hit = z3.And(term(items[0], "int") == i, term(items[1], "int") == j)
     return mk_bool(z3.ForAll([i, j], z3.And(z3.Implies(inside, z3.And(has, hit)),
                                               z3.Implies(z3.And(i >= 0, i < 26, j >= 0, z3.Not(inside)), z3.Not(has)))))
+
+
+# ----------------------------------------------------------------------------- DilutionPlan (C14), concrete R x C
+
+
+def _plan_parts(ex, P, R, C, vmax):
+    """(instructions as [(c, dsteps, src, [v_r])], per-column vmax terms) or None if the object has another shape"""
+    ins = P.fields.get("instructions")
+    if not isinstance(ins, SeqV) or not ins.is_concrete_len():
+        return None
+    out = []
+    for it in ins.concrete_items():
+        if not isinstance(it, SeqV) or not it.is_concrete_len():
+            return None
+        parts = it.concrete_items()
+        if len(parts) != 4 or not isinstance(parts[3], SeqV) or not parts[3].is_concrete_len():
+            return None
+        vs = parts[3].concrete_items()
+        if len(vs) != R:
+            return None
+        out.append((parts[0], parts[1], parts[2], [term(v, "real") for v in vs]))
+    if isinstance(vmax, SeqV):
+        vm = [term(v, "real") for v in vmax.concrete_items()]
+        if len(vm) == 1:
+            vm = vm * C
+    else:
+        vm = [term(vmax, "real")] * C
+    if len(vm) != C:
+        return None
+    return out, vm
+
+
+def _plan_conc(parts, stock):
+    """concentration of every well as implied by the instructions (exact arithmetic): conc[c][r]"""
+    ins, vm = parts
+    st = term(stock, "real")
+    conc = {}
+    for c, d, src, vs in ins:
+        if isinstance(src, str):
+            conc[c] = [v / vm[c] * st for v in vs]
+        else:
+            conc[c] = [v * conc[src][r] / vm[c] for r, v in enumerate(vs)]
+    return conc
+
+
+@spec
+def plan_volumes_ok(ex, P, R, C, vmax, min_transfer):
+    """one instruction per column, in column order; every transfer volume a whole number with min_transfer <= v <= vmax[column]"""
+    parts = _plan_parts(ex, P, R, C, vmax)
+    if parts is None:
+        return False
+    ins, vm = parts
+    if [c for c, _, _, _ in ins] != list(range(C)):
+        return False
+    mt = term(min_transfer, "real")
+    conj = []
+    for c, _, _, vs in ins:
+        for v in vs:
+            k = z3.Int(ex.p.fresh_name("whole"))
+            conj.append(z3.And(z3.Exists([k], v == z3.ToReal(k)), mt <= v, v <= vm[c]))
+    return mk_bool(z3.And(*conj))
+
+
+@spec
+def plan_sources_ok(ex, P, R, C, vmax):
+    """every column is prepared from the stock (0 dilution steps) or from a column prepared earlier (one step more than it)"""
+    parts = _plan_parts(ex, P, R, C, vmax)
+    if parts is None:
+        return False
+    ins, _ = parts
+    steps = {}
+    for c, d, src, _ in ins:
+        if isinstance(c, bool) or not isinstance(c, int) or isinstance(d, bool) or not isinstance(d, int):
+            return False
+        if isinstance(src, str):
+            if src != "stock" or d != 0:
+                return False
+        else:
+            if isinstance(src, bool) or not isinstance(src, int) or not (0 <= src < c) or src not in steps or d != steps[src] + 1:
+                return False
+        steps[c] = d
+    return len(steps) == C
+
+
+@spec
+def plan_concentrations_ok(ex, P, R, C, vmax, stock):
+    """the reported concentrations x (R x C), xmin and xmax equal those implied by the instructions"""
+    parts = _plan_parts(ex, P, R, C, vmax)
+    if parts is None or not plan_sources_ok(ex, P, R, C, vmax):
+        return False
+    conc = _plan_conc(parts, stock)
+    x = P.fields.get("x")
+    if not isinstance(x, Arr2V) or x.rows != R or x.cols != C:
+        return False
+    conj = [term(x.fn(r, c), "real") == conc[c][r] for c in range(C) for r in range(R)]
+    flat = [conc[c][r] for c in range(C) for r in range(R)]
+    for name, le in (("xmin", lambda a, b: a <= b), ("xmax", lambda a, b: a >= b)):
+        m = term(P.fields[name], "real")
+        conj.append(z3.And(*[le(m, e) for e in flat]))
+        conj.append(z3.Or(*[m == e for e in flat]))
+    return mk_bool(z3.And(*conj))
+
+
+@spec
+def plan_totals_ok(ex, P, R, C, vmax):
+    """v_stock = everything drawn from the stock, v_diluent = total volume minus v_stock, max_steps, R, C, N and vmax as reported"""
+    parts = _plan_parts(ex, P, R, C, vmax)
+    if parts is None:
+        return False
+    ins, vm = parts
+    f = P.fields
+    if f.get("R") != R or f.get("C") != C or f.get("N") != R * C:
+        return False
+    pv = f.get("vmax")
+    if not isinstance(pv, SeqV) or not pv.is_concrete_len() or len(pv.concrete_items()) != C:
+        return False
+    conj = [term(a, "real") == b for a, b in zip(pv.concrete_items(), vm)]
+    vstock = z3.Sum(*([z3.RealVal(0)] + [v for _, d, src, vs in ins if isinstance(src, str) for v in vs]))
+    conj.append(term(f["v_stock"], "real") == vstock)
+    conj.append(term(f["v_diluent"], "real") == R * z3.Sum(*vm) - vstock)
+    ds = [d for _, d, _, _ in ins]
+    if not ds or any(not isinstance(d, int) for d in ds) or f.get("max_steps") != max(ds):
+        return False
+    return mk_bool(z3.And(*conj))
